@@ -1,7 +1,7 @@
 #!/bin/bash
 # Run every registered check (quick by default) and summarise exit codes.
 tier=${1:-quick}
-cd /verif
+cd "$(dirname "$0")/.."
 for id in $(python3 -c "import json; print(' '.join(c['property_id'] for c in json.load(open('MANIFEST.json'))['checks']))"); do
   out=$(/venv/bin/python run_check.py $id --tier $tier 2>&1); rc=$?
   echo "$id rc=$rc $(echo "$out" | grep -c '^KNOWN-FINDING') known | $(echo "$out" | tail -1)"
